@@ -34,6 +34,19 @@ Inductive did_answer :=
 | DDoc (info : option (option bool)).       (* None: no Iden3StateInfo2023 method;
                                                Some p: that method's `published` pointer *)
 
+(* DIDDocument.verificationMethod as far as the verifier looks at it: the entry's type is
+   "Iden3StateInfo2023" (with its `published` pointer) or anything else.
+   getIden3StateInfo2023FromDIDDocument takes the FIRST entry of that type (copy + break). *)
+Inductive vmethod := VMOther | VMStateInfo (published : option bool).
+Fixpoint state_info (vms : list vmethod) : option (option bool) :=
+  match vms with
+  | [] => None
+  | VMStateInfo p :: _ => Some p
+  | VMOther :: r => state_info r
+  end.
+(* a resolved DID document *)
+Definition did_doc (vms : list vmethod) : did_answer := DDoc (state_info vms).
+
 Definition EDid        : string := "did-parse"%string.
 Definition EStateUnset : string := "state-value-unset"%string.
 Definition EStateHex   : string := "state-value-hex"%string.
